@@ -70,6 +70,7 @@ type Exec struct {
 	Inlined map[string]bool
 	epochSeq int
 	bvSeq    int
+	anchorHit map[int]bool
 	Assumptions map[string]bool
 }
 
@@ -78,7 +79,7 @@ func NewExec(p *Prog, fn *ssa.Function) *Exec {
 		MaxStates: 60000, labelCount: map[string]int{}, instrLabel: map[ssa.Instruction]string{},
 		DefaultExterns: map[string]bool{}, UsedExterns: map[string]bool{}, UsedContracts: map[string]bool{},
 		strLits: map[string]string{}, retOrd: map[*ssa.Return]int{}, callOrd: map[ssa.Instruction]string{},
-		smokeCount: map[string]int{}, Inlined: map[string]bool{}, Assumptions: map[string]bool{}}
+		smokeCount: map[string]int{}, Inlined: map[string]bool{}, Assumptions: map[string]bool{}, anchorHit: map[int]bool{}}
 	x.TM = NewTypeMap(x.D)
 	x.FC = p.Contracts[fn.String()]
 	if x.FC != nil {
@@ -220,6 +221,25 @@ func (x *Exec) Run() {
 	x.emitSmoke(st, "entry")
 	x.runBlock(st, x.Fn.Blocks[0], nil)
 	x.typeFacts()
+	// contract items that never bound to the code are failures, not silently skipped
+	if x.FC != nil {
+		for ai, a := range x.FC.Asserts {
+			if !x.anchorHit[ai] {
+				x.unsupported("anchor %q of %s does not bind to any program point", a.Anchor, x.short)
+			}
+		}
+		used := map[string]bool{}
+		for fn2, m := range x.loops {
+			for _, l := range m {
+				used[x.loopKey(fn2, l)] = true
+			}
+		}
+		for k := range x.FC.Loops {
+			if !used[k] {
+				x.unsupported("loop contract %q of %s does not bind to any loop", k, x.short)
+			}
+		}
+	}
 }
 
 // typeFacts: ground facts about the dynamic type tags known to this run, for the abstract predicates
@@ -464,6 +484,11 @@ func (x *Exec) runInstrs(st *State, b *ssa.BasicBlock, from int, pred *ssa.Basic
 			// calls may fork (inlined closures); continuation-passing
 			cont := func(st *State, res Value) {
 				st.top().Regs[ins] = res
+				if lab, ok := x.callOrd[ins]; ok && x.FC != nil && len(x.FC.Asserts) > 0 {
+					env := x.localEnv(st)
+					env.vars["result"] = res
+					x.anchors(st, "after call "+lab, env)
+				}
 				x.runInstrs(st, b, i+1, pred)
 			}
 			x.doCall(st, ins, &ins.Call, cont)
@@ -772,7 +797,7 @@ func (x *Exec) load(st *State, pv Value, assume bool) Value {
 		out = x.mk(term, t)
 	}
 	if assume {
-		if len(out.Term) > 160 && out.Ptr == nil && out.Tup == nil && !strings.Contains(out.Term, "!b") && !strings.Contains(out.Term, "!q") {
+		if len(out.Term) > 160 && strings.HasPrefix(out.Term, "(select ") && out.Ptr == nil && out.Tup == nil && !strings.Contains(out.Term, "!b") && !strings.Contains(out.Term, "!q") {
 			n := x.D.Fresh("v", out.Sort)
 			st.Assume(Eq(n, out.Term))
 			out.Term = n
